@@ -39,8 +39,17 @@ def policy(nb, d):
 
 def gen(seed, tier):
     r = rng_for(seed, "workload")
+    both = r.random() < 0.35
     spec = G.gen_graph(r, n_derived=(2, 5), n_sources=(1, 2), n_rows=(0, 8), max_chunks=4,
-                       kinds=("rowmap", "filter", "merge2", "multi", "loop", "multi", "rowmap"))
+                       kinds=("rowmap", "filter", "merge2", "multi", "loop", "multi", "rowmap"),
+                       must_have=["multi"] if both else None)
+    if both:
+        # a consumer of BOTH outputs of a multi-output plugin (the planner must treat each output on its own)
+        m = [n for n in spec["nodes"] if n["kind"] == "multi"][0]
+        deps = list(m["names"])
+        if r.random() < 0.5:
+            deps.reverse()
+        spec["nodes"].append({"name": "both", "kind": "recorder", "deps": deps})
     nb = P.node_by_type(spec)
     types = [d for n in spec["nodes"] for d in P.names_of(n)]
     for n in spec["nodes"]:
@@ -51,15 +60,16 @@ def gen(seed, tier):
             n["opts"] = {"save_when": r.choice(["ALWAYS", "ALWAYS", "TARGET", "EXPLICIT", "NEVER"]),
                          "rechunk_on_save": r.random() < 0.4}
     derived = [d for n in spec["nodes"] if n["kind"] != "source" for d in P.names_of(n)]
-    target = r.choice(derived)
+    target = "both" if (both and r.random() < 0.8) else r.choice(derived)
     need = sorted(G.needed_for(spec, target))
     orc = P.oracle(spec)
     s, e = P.run_range(spec)
     # front-end 0 may be filtered / readonly; front-end 1 is a plain writable directory
     fe0 = {"readonly": r.random() < 0.3, "take_only": [], "exclude": []}
+    # take_only and exclude are independent: a type listed in both is documented as "not provided"
     if r.random() < 0.3:
         fe0["take_only"] = sorted(r.sample(types, r.randint(1, len(types))))
-    elif r.random() < 0.3:
+    if r.random() < 0.3:
         fe0["exclude"] = sorted(r.sample(types, r.randint(1, max(1, len(types) // 2))))
     stored = {}
     for d in types:
@@ -147,8 +157,8 @@ def plan(w):
         for n in run:
             for d in P.names_of(n):
                 pol = policy(nb, d)
-                if pol == "NEVER" and d in w["save"]:
-                    err = "ValueError"
+                if pol == "NEVER" and d in w["save"] and d not in readable:
+                    err = "ValueError"      # asking to save a never-saved type that would be computed
         # NEVER + save= is only noticed for types whose plugin is visited
     if err is None and not partial:
         for n in run:
